@@ -178,9 +178,10 @@ def check_collection(q, cid, prog_order_free, out, replay, rng, index_free=False
 
 def check_case(case, common, out):
     import random
+    import zlib
 
     cid = K.case_id(case)
-    rng = random.Random(hash(cid) & 0xFFFF)
+    rng = random.Random(zlib.crc32(cid.encode()) & 0xFFFF)  # not hash(): str hashes differ between interpreters, the sampled orders must not
     try:
         prog, q = K.build(case)
     except Exception as ex:
